@@ -705,6 +705,12 @@ CORPUS_E2E = [
                          'PASV': [H(b'227 Entering Passive Mode (127,0,0,1,{P1},{P2})\r\n')], 'MLSD': [H(b'500 no\r\n')],
                          'LIST': [H(b'150 go\r\n226 done\r\n'), 'CLOSE'], 'RETR': [H(b'150 go\r\n226 done\r\n')]},
              'data': {'LIST': H(b'-rw-r--r-- 1 u g 5 Jan 01 2015 file.txt\r\n'), 'RETR': H(b'hello')}}},
+    # failed robots.txt fetches used to keep their connection checked out: the 7th failure for one host key hung the crawl
+    {'kind': 'e2e', 'proto': 'http', 'tag': 'corpus-e2e-robots-connection-leak',
+     'args': ['http://raw%d:{RAWPORT}/p' % i for i in range(8)] + ['http://ctl:{PORT}/control', '-r', '-l', '1', '--tries', '1', '--concurrent', '1',
+                                                                   '--timeout', '5'],
+     'raw_http': {'/robots.txt': H(b'HTTP/1.1 302 Found\r\nLocation: http://dead.test:1/robots.txt\r\nContent-Length: 0\r\n\r\n'),
+                  '/p': H(b'HTTP/1.1 200 OK\r\nContent-Length: 2\r\n\r\nok')}},
     # Last-Modified that is not a date -> time.mktime(None) in the file writer
     {'kind': 'e2e', 'proto': 'http', 'tag': 'corpus-e2e-last-modified',
      'args': ['http://raw0:{RAWPORT}/p0', 'http://ctl:{PORT}/control', '--tries', '1', '--concurrent', '1', '--timeout', '5', '--no-robots'],
